@@ -165,6 +165,7 @@ type histOp struct {
 	change *protocol.TextDocumentContentChangeEvent
 	prev   string
 	lo, hi uint32
+	ref    []uint32 // full / delta: the implementation's full result for the current text
 }
 
 var c17URIs = []string{"file:///w/a.journal", "file:///w/b.journal", "file:///w/c.journal"}
@@ -229,12 +230,14 @@ func applyOp(srv *server.Server, op *histOp) any {
 		if err != nil {
 			panic(err)
 		}
+		op.ref = refFull(srv, u)
 		return respJ(r)
 	case "delta":
 		r, err := srv.SemanticTokensFullDelta(ctx, &protocol.SemanticTokensDeltaParams{TextDocument: id, PreviousResultID: op.prev})
 		if err != nil {
 			panic(err)
 		}
+		op.ref = refFull(srv, u)
 		return respJ(r)
 	case "range":
 		r, err := srv.SemanticTokensRange(ctx, &protocol.SemanticTokensRangeParams{TextDocument: id,
@@ -247,13 +250,28 @@ func applyOp(srv *server.Server, op *histOp) any {
 	panic("bad op " + op.k)
 }
 
+// refFull: the full result for the current text of u, without touching the result cache
+// (a range request over every line).
+func refFull(srv *server.Server, u protocol.DocumentURI) []uint32 {
+	r, err := srv.SemanticTokensRange(context.Background(), &protocol.SemanticTokensRangeParams{
+		TextDocument: protocol.TextDocumentIdentifier{URI: u},
+		Range:        protocol.Range{Start: protocol.Position{Line: 0}, End: protocol.Position{Line: 0xFFFFFFFF}}})
+	if err != nil {
+		panic(err)
+	}
+	return u32s(r.Data)
+}
+
 func stepJ(op histOp) J {
 	j := J{"k": op.k, "u": op.u}
 	switch op.k {
 	case "set":
 		j["doc"] = lexedDoc(op.text)
+	case "full":
+		j["ref"] = u32s(op.ref)
 	case "delta":
 		j["prev"] = op.prev
+		j["ref"] = u32s(op.ref)
 	case "range":
 		j["lo"], j["hi"] = op.lo, op.hi
 	}
@@ -688,7 +706,7 @@ func genHist17(c *Ctx) map[string]any {
 	srv := server.NewServer()
 	base := isolate17(srv)
 	nu := 1 + r.IntN(3)
-	n := 1 + r.IntN(c.N(10, 40))
+	n := 3 + r.IntN(c.N(8, 38))
 	cur := map[string]string{}
 	open := map[string]bool{}
 	lastID := map[string]string{}
@@ -699,45 +717,52 @@ func genHist17(c *Ctx) map[string]any {
 	for i := 0; i < n; i++ {
 		u := c17URIs[r.IntN(nu)]
 		op := histOp{u: u}
-		switch x := r.IntN(20); {
-		case !open[u] && x < 10, x == 0:
+		switch x := r.IntN(40); {
+		case !open[u] && x < 30, x == 0:
 			op.k = "set"
 			op.text, _ = genText17(c, 3)
 			c.Count("hist.open")
-		case x == 1:
+		case x == 1 || x == 2:
 			op.k = "close"
 			c.Count("hist.close")
-		case x < 7 && open[u]:
+		case x < 12 && open[u]:
 			op.k = "set"
-			if r.IntN(5) == 0 {
+			switch y := r.IntN(10); {
+			case y == 0:
 				op.text, _ = genText17(c, 3)
 				c.Count("hist.replace")
-			} else {
+			case y == 1:
+				op.text = ""
+				c.Count("hist.emptied")
+			case y == 2:
+				op.text = cur[u] // same text again: a delta with no edits
+				c.Count("hist.same")
+			default:
 				op.change = genEdit17(c, cur[u])
 				c.Count("hist.edit")
 			}
-		case x < 10:
+		case x < 16 || (lastID[u] == "" && x < 26):
 			op.k = "full"
 			c.Count("hist.full")
-		case x < 12:
+		case x < 19:
 			op.k = "range"
 			op.lo, op.hi = genLineNo(r, cur[u]), genLineNo(r, cur[u])
 			c.Count("hist.range")
 		default:
 			op.k = "delta"
-			switch y := r.IntN(10); {
-			case y < 6 && lastID[u] != "":
+			switch y := r.IntN(20); {
+			case y < 11 && lastID[u] != "":
 				op.prev = lastID[u]
 				c.Count("hist.delta.current")
-			case y < 8 && len(oldIDs[u]) > 0:
+			case y < 15 && len(oldIDs[u]) > 0:
 				op.prev = pick(r, oldIDs[u])
 				c.Count("hist.delta.stale")
-			case y < 9 && len(allIDs) > 0:
+			case y < 17 && len(allIDs) > 0:
 				op.prev = pick(r, allIDs) // possibly another document's id
 				c.Count("hist.delta.anyid")
 			default:
 				op.prev = pick(r, []string{"", "0", "abc", strconv.FormatUint(counter+1, 10),
-					strconv.FormatUint(counter+2, 10), "18446744073709551615", "01"})
+					strconv.FormatUint(counter+2, 10), "18446744073709551615", "01", " 1"})
 				c.Count("hist.delta.unknown")
 			}
 		}
